@@ -24,13 +24,17 @@ func init() {
 		"that the names in a directory's map ARE the existing entries (C05/C06), entry types, behaviour under permission errors of the file system itself",
 		"BasePathFS's translation of pattern and matches is decided under C10.in / C10.out",
 	}
-	register(&Rule{ID: "C13.tv", Floor: 40, Also: []string{"C10", "C07"},
+	register(&Rule{ID: "C13.tv", Floor: 40, Also: []string{"C10", "C07", "C04", "C17"},
+		// C04: a link target is spliced into the path and cleaned (Clean / lazybuf); C17: the Windows variants are what a
+		// Windows-typed file system computes on any host
+		AlsoOnly: map[string][]string{"C04": {"lazybuf", "avfs.Clean", "avfs.IsAbs", "avfs.Join"}, "C17": {"[windows]"}}, AlsoFloor: map[string]int{"C04": 4, "C17": 15},
 		Text: "tagged build: each adapted lexical path function, specialised to Linux and to Windows (OSType()/PathSeparator() folded, dead branches pruned) and normalised by a closed list of semantics-preserving rewrites, is structurally identical to the corresponding function of this toolchain's GOROOT (internal/filepathlite, path/filepath) normalised the same way; identical normal forms imply identical results for every input",
 		Run:  func(rc *RuleCtx) { tvRule(rc, "C13") }})
 	register(&Rule{ID: "C13.off", Floor: 10,
 		Text: "untagged build: every path helper of vfs_ostype_off.go is a positional forward of its own parameters (file system excluded) to the same-named function of path/filepath (os.IsPathSeparator, the linked volumeNameLen) and returns its results unchanged",
 		Run:  c13Off})
-	register(&Rule{ID: "C14.tv", Floor: 12, Also: []string{"C07"},
+	register(&Rule{ID: "C14.tv", Floor: 12, Also: []string{"C07", "C01"},
+		AlsoOnly: map[string][]string{"C01": {"WalkDir", "walkDir", "ReadDir"}}, AlsoFloor: map[string]int{"C01": 2},
 		Text: "Glob / globWithLimit / glob / hasMeta / cleanGlobPath, WalkDir / walkDir and ReadDir are structurally identical, after the same normalisation and the call-correspondence table (os.X(a) ~ vfs.X(a), os.Open(n) ~ OpenFile(n, O_RDONLY, 0), fs.FileInfoToDirEntry(i) ~ &statDirEntry{i}, sort by Name), to filepath.Glob..., filepath.WalkDir / walkDir and os.ReadDir of this toolchain",
 		Run:  func(rc *RuleCtx) { tvRule(rc, "C14") }})
 	register(&Rule{ID: "C12.tv", Floor: 1,
